@@ -1,0 +1,61 @@
+//go:build verif
+
+package pool
+
+import (
+	"github.com/buildbarn/bb-storage/pkg/filesystem"
+)
+
+// Read-only state dumps for the model-checking harness /verif/harness/pool
+// (property C15). Nothing in this file modifies any state.
+
+// VerifAllocatorState returns a copy of the free bitmap (one bits are free
+// sectors, bit i of word w is sector w*64+i+1) and the next-fit cursor of a
+// bitmap sector allocator. ok is false for other SectorAllocators.
+func VerifAllocatorState(sa SectorAllocator) (freeBitmap []uint64, nextSector uint32, ok bool) {
+	b, isBitmap := sa.(*bitmapSectorAllocator)
+	if !isBitmap {
+		return nil, 0, false
+	}
+	return append([]uint64(nil), b.freeBitmap...), b.nextSector, true
+}
+
+// VerifQuotaState returns the remaining file count and byte count of a
+// quota enforcing file pool.
+func VerifQuotaState(fp FilePool) (filesRemaining, bytesRemaining uint64, ok bool) {
+	q, isQuota := fp.(*quotaEnforcingFilePool)
+	if !isQuota {
+		return 0, 0, false
+	}
+	return q.filesRemaining.remaining.Load(), q.bytesRemaining.remaining.Load(), true
+}
+
+// VerifFileInfo describes one file handle handed out by a FilePool.
+type VerifFileInfo struct {
+	// Quota layer (if the handle is a quotaEnforcingFile).
+	HasQuota  bool
+	QuotaSize uint64
+	// Inner is the handle wrapped by the quota layer (nil once closed).
+	Inner filesystem.FileReadWriter
+	// Block device layer (if the innermost handle is a blockDeviceBackedFile).
+	HasBlock  bool
+	SizeBytes uint64
+	Sectors   []uint32
+}
+
+// VerifFileState returns the internal bookkeeping of a file handle.
+func VerifFileState(f filesystem.FileReadWriter) VerifFileInfo {
+	var info VerifFileInfo
+	if q, ok := f.(*quotaEnforcingFile); ok {
+		info.HasQuota = true
+		info.QuotaSize = q.size
+		info.Inner = q.FileReadWriter
+		f = q.FileReadWriter
+	}
+	if b, ok := f.(*blockDeviceBackedFile); ok {
+		info.HasBlock = true
+		info.SizeBytes = b.sizeBytes
+		info.Sectors = append([]uint32(nil), b.sectors...)
+	}
+	return info
+}
